@@ -291,7 +291,7 @@ Section SEM2.
   Definition drop_stage (ps : list (string * option string)) (st : pstate) : pstate :=
     let ls := filter (drop_keeps (map drop_spec ps)) (p_labels st) in
     {| p_labels := ls; p_fp := hash_labels ls |}.
-  (* `| regexp "re"`: the non-empty texts the NAMED capture groups took in the (last) match of the expression in the line
+  (* `| regexp "re"`: the non-empty texts the NAMED capture groups took in the first match of the expression in the line
      are written over the label map, and the line is re-fingerprinted like a json-parsed line; a line the expression
      does not match keeps its labels. (The oracle is asked first: under the default instance no_groups the stage is
      None whatever its parameters.) *)
